@@ -191,6 +191,9 @@ def gen_cmd(pkg, t, log):
             # (its parent) with SIGKILL after having written one output, and stops.
             kill = ' if [ -e "%s" ]; then rm -f "%s"; kill -9 $PPID; exit 1; fi;' % (t["killfile"], t["killfile"])
         body = 'for o in $OUTS; do { echo "T %s %s ${o##*/}";%s %s; } > "$o";%s done; ' % (lab, t["salt"], envdump, DUMP, kill)
+    if t.get("optlog"):
+        # an optional output whose NAME depends on the content of the inputs (optional_outs = ["*.optlog"])
+        body += 'tag=`{ echo %s; find $SRCS /dev/null -type f 2>/dev/null | LC_ALL=C sort | xargs cat 2>/dev/null; } | cksum | cut -d" " -f1`; echo "optional %s $tag" > %s_$tag.optlog; ' % (t["salt"], lab, t["name"])
     if t.get("quiet"):
         body += ': %s; ' % t["quiet"]
     return pre + body + 'echo "E %s ok" >> %s' % (lab, log)
